@@ -43,7 +43,7 @@ func init() {
 		Run: func(w *mon.Worker) { runRefcount(w, "C10") }, Workers: 16, GOMAXPROCS: 4,
 		QuickTimeout: 8 * time.Minute, ThoroughTimeout: 40 * time.Minute,
 		QuickFloor: 1500, ThoroughFloor: 40000, CaseTimeout: 8 * time.Second,
-		RequiredCounters: []string{"consumer_returns_judged", "access_invocations", "access_returns_judged", "invalidations_inside_consumer_call", "released_callbacks_audited", "equal_replacement_cases"},
+		RequiredCounters: []string{"consumer_returns_judged", "access_invocations", "access_returns_judged", "invalidations_inside_consumer_call", "released_callbacks_audited", "equal_replacement_cases", "access_single_invalidation_cases"},
 		Rule: "same workload with 1-3 Access callers (callbacks returning at once, running until cancelled or until told) and 1-3 Wait/Resolve/ResolveWithReleased callers as the main actors, an invalidator, a context changer and other references coming and going, including resolvers that return an equal (==) value again; " +
 			"consumer holds are entered into the premature-release table between return and release; Access results are judged against the release stamps that fall inside the callback invocation; at quiescence blocked invocations on invalidated values and missing re-invocations are violations; " +
 			"non-trivial = at least one invalidation landed inside a consumer's call; distinct = distinct event orders",
@@ -319,6 +319,12 @@ func runRefcount(w *mon.Worker, prop string) {
 		i := i
 		w.Case("mixed", map[string]any{"i": i}, func(c *mon.Case) { refcountCase(c, prop, i) })
 	}
+	if prop == "C10" {
+		mon.SetProb(0.3, verifhook.BcastEnter, verifhook.BcastExit, verifhook.RefCountLock)
+		for i := 0; i < w.Share(w.Scale(4000, 400000)); i++ {
+			w.Case("access-one-invalidation", nil, rfAccessOneInvalidationCase)
+		}
+	}
 	mon.ClearProb()
 	if prop == "C09" {
 		for i := 0; i < w.Share(w.Scale(800, 100000)); i++ {
@@ -336,6 +342,7 @@ type rfConsumer struct {
 	ctx         context.Context
 	cancel      context.CancelFunc
 	cancelStamp atomic.Int64
+	cancelDone  atomic.Int64 // stamp taken after cancel() returned
 	call, ret   int64
 	val         *rfVal
 	err         error
@@ -675,6 +682,7 @@ func refcountCase(c *mon.Case, prop string, idx int) {
 				}
 				cs.cancelStamp.Store(c.Rec(name, "cancel caller ctx", nil))
 				cs.cancel()
+				cs.cancelDone.Store(c.Stamp())
 			})
 		}
 	}
@@ -810,6 +818,9 @@ func refcountCase(c *mon.Case, prop string, idx int) {
 					if !w.sameValue && w.target.GetValue() != g.Val() {
 						c.Violate("resolver", "refcount-target-not-updated", "the newest result g%d is not in the target container at quiescence (holds %s)", g.g, valID(w.target.GetValue()))
 					}
+					if pe := w.targetErr.GetValue(); pe != nil {
+						c.Violate("resolver", "refcount-stale-error-in-error-container", "the newest result g%d is a value, yet the error container still holds %v", g.g, *pe)
+					}
 				} else if pe := w.targetErr.GetValue(); pe == nil || *pe != g.Err() {
 					c.Violate("resolver", "refcount-target-error-not-updated", "the newest result g%d is the error %v but the error container holds %v", g.g, g.Err(), pe)
 				}
@@ -919,6 +930,9 @@ func refcountCase(c *mon.Case, prop string, idx int) {
 	if v := w.target.GetValue(); v != nil {
 		c.Violate("release", "refcount-target-not-cleared", "after ClearContext the target container still holds %s", valID(v))
 	}
+	if pe := w.targetErr.GetValue(); pe != nil {
+		c.Violate("release", "refcount-target-error-not-cleared", "after ClearContext the error container still holds %v", *pe)
+	}
 
 	// ----- consumer returns
 	for _, cs := range consumers {
@@ -1015,6 +1029,10 @@ func judgeAccess(c *mon.Case, w *rfWorld, cs *rfConsumer, cancelled bool) {
 		any := false
 		for _, inv := range invs {
 			if inv.done.Load() && inv.n%2 == 1 {
+				if cd := cs.cancelDone.Load(); cd != 0 && cd < inv.pre && inv.n == len(invs)-1 {
+					c.Violate("access", "refcount-access-callback-result-despite-cancel", "Access of consumer %d returned nil, the result of its last invocation %d, although the caller's context had been cancelled (at %d) before that invocation returned (at %d)", cs.id, inv.n, cd, inv.pre)
+					return
+				}
 				any = true
 				if releasedWithin(inv) == nil {
 					return
@@ -1035,6 +1053,10 @@ func judgeAccess(c *mon.Case, w *rfWorld, cs *rfConsumer, cancelled bool) {
 	}
 	for _, inv := range invs {
 		if inv.token == cs.err || (inv.done.Load() && inv.token.Error() == cs.err.Error()) {
+			if cd := cs.cancelDone.Load(); cd != 0 && cd < inv.pre {
+				c.Violate("access", "refcount-access-callback-result-despite-cancel", "Access of consumer %d returned %v, the result of invocation %d, although the caller's context had been cancelled (at %d) before that invocation returned (at %d): a cancelled caller context must be returned as context.Canceled", cs.id, cs.err, inv.n, cd, inv.pre)
+				return
+			}
 			if g := releasedWithin(inv); g != nil {
 				c.Violate("access", "refcount-access-returned-invalidated-result", "Access of consumer %d returned %v, the result of invocation %d (entered %d, returned %d), but g%d was released at %d inside that invocation: the value was invalidated and the callback must be invoked again with the replacement", cs.id, cs.err, inv.n, inv.enter, inv.pre, g.g, g.relStamp.Load())
 			}
@@ -1184,4 +1206,91 @@ func rfRootCancelCase(c *mon.Case) {
 	h.gone.Store(true)
 	w.rc.ClearContext()
 	mon.Quiesce(5 * time.Second)
+}
+
+// rfAccessOneInvalidationCase: one Access whose callback runs until its context is cancelled, exactly one
+// invalidation at a swept moment, nothing afterwards: the callback must be cancelled and re-invoked on the replacement.
+func rfAccessOneInvalidationCase(c *mon.Case) {
+	r := c.Rng
+	behave := func(g int) (int, int) { return rfValue, 0 }
+	rootCtx, rootCancel := context.WithCancel(context.Background())
+	defer rootCancel()
+	w := newRfWorld(c, r.IntN(2) == 0, false, true, rootCtx, behave)
+	defer close(w.endCase)
+	h := w.newHolder("ref", true)
+	ref := w.rc.AddRef(w.refCb(h))
+	if !mon.Quiesce(5 * time.Second) {
+		c.Inconclusive("no quiescence at start")
+		return
+	}
+	type inv struct {
+		val  *rfVal
+		ctx  context.Context
+		done atomic.Bool
+	}
+	var mu sync.Mutex
+	var invs []*inv
+	actx, acancel := context.WithCancel(context.Background())
+	defer acancel()
+	var accessErr error
+	var returned atomic.Bool
+	c.Go("access", func() {
+		accessErr = w.rc.Access(actx, func(ctx context.Context, v *rfVal) error {
+			in := &inv{val: v, ctx: ctx}
+			mu.Lock()
+			invs = append(invs, in)
+			mu.Unlock()
+			c.Rec("access", "cb enter "+valID(v), nil)
+			<-ctx.Done()
+			in.done.Store(true)
+			c.Rec("access", "cb return "+valID(v), nil)
+			return nil
+		})
+		returned.Store(true)
+	})
+	for k := 0; k < r.IntN(60); k++ {
+		runtime.Gosched()
+	}
+	gl := w.genList()
+	g := gl[len(gl)-1]
+	g.invalid.CompareAndSwap(0, c.Stamp())
+	c.Rec("invalidator", fmt.Sprint("released() of g", g.g), nil)
+	g.released()
+	if !mon.Quiesce(5 * time.Second) {
+		c.Inconclusive("no quiescence after the invalidation")
+		return
+	}
+	c.Count("access_single_invalidation_cases", 1)
+	c.NonTrivial()
+	gl = w.genList()
+	newest := gl[len(gl)-1]
+	mu.Lock()
+	cur := append([]*inv(nil), invs...)
+	mu.Unlock()
+	c.Mix(uint64(len(cur))<<8 | uint64(len(gl)))
+	for i, in := range cur {
+		if gg := w.genOf(in.val); gg != nil && gg.relCount.Load() > 0 && !in.done.Load() && in.ctx.Err() == nil {
+			if mon.QuiesceConfirmed(50*time.Millisecond, 5*time.Second) && !in.done.Load() && in.ctx.Err() == nil {
+				c.Violate("access", "refcount-access-ctx-not-cancelled", "Access callback invocation %d still runs on g%d with a live context at quiescence although that value was invalidated (released at %d) and nothing else will happen", i, gg.g, gg.relStamp.Load())
+			}
+		}
+	}
+	if !c.Violated() && !returned.Load() && newest.Ret() != 0 && newest.relCount.Load() == 0 {
+		running := false
+		for _, in := range cur {
+			if !in.done.Load() && in.val == newest.Val() {
+				running = true
+			}
+		}
+		if !running {
+			c.Violate("access", "refcount-access-not-reinvoked", "after one invalidation the newest value g%d is resolved and valid, Access has not returned, but no callback invocation is running on it (%d invocations so far)", newest.g, len(cur))
+		}
+	}
+	acancel()
+	h.releasing.Store(true)
+	ref.Release()
+	h.gone.Store(true)
+	w.rc.ClearContext()
+	mon.Quiesce(5 * time.Second)
+	_ = accessErr
 }
